@@ -20,7 +20,7 @@ import ast
 import itertools
 
 from .. import astutil as A
-from ..alg import AutoRegion, Interp, Obj, Poly, PyFunc, Undecided, fn, to_poly
+from ..alg import FragmentFault, AutoRegion, Interp, Obj, Poly, PyFunc, Undecided, fn, to_poly
 from ..objmodel import World
 from ..dep import Deps
 from .. import listnp
@@ -480,6 +480,8 @@ def _access_fields(ctx, rid, reg):
                     ctx.holds(rid, site, f"access field {got[0][0]} / {got[1][0]} x {rows} row(s)")
                 else:
                     ctx.violated(rid, init, f"{c.name} access field [batch_size={bs}]", "the access field does not send each bin a bin-wise modifier acts on to that modifier's own parameter for the bin" + (" (position of the bin inside its channel)" if key == "shapefactor" else " (k-th masked bin -> k-th parameter; the modifier's bins need not be contiguous)"), expected=str(exp), found=str(got))
+            except FragmentFault as e:
+                ctx.violated(rid, init, f"{c.name}.__init__ [batch_size={bs}]", f"on a well-formed configuration the code indexes outside its own tensors: {e}")
             except (Undecided, KeyError, TypeError, ValueError, IndexError, AttributeError) as e:
                 ctx.unrecognised(rid, init, f"{c.name}.__init__ [batch_size={bs}]", f"not interpretable: {type(e).__name__}: {e}")
 
@@ -547,6 +549,8 @@ def _apply_end_to_end(ctx, rid, reg):
                     except IndexError:
                         g_ = "<missing>"
                     ctx.violated(rid, cl.methods["apply"], f"{cl.name} factor [batch_size={bs}]", f"the factor of modifier {mods[mi]} on sample {samples[si]}, batch row {r}, global bin {j} is {g_}; the rate formula wants {want[mi][si][r][j]} (own parameter component where the sample declares the modifier, 1 elsewhere)", expected=str(want), found=str(got))
+            except FragmentFault as e:
+                ctx.violated(rid, cl, f"{cl.name} end to end [batch_size={bs}]", f"on a well-formed configuration the code indexes outside its own tensors: {e}")
             except (Undecided, KeyError, TypeError, ValueError, IndexError, AttributeError) as e:
                 ctx.unrecognised(rid, cl, f"{cl.name} end to end [batch_size={bs}]", f"not interpretable: {type(e).__name__}: {e}")
 
@@ -593,6 +597,8 @@ def _build_end_to_end(ctx, rid, reg):
     site = f"{PDF}::_nominal_and_modifiers_from_spec [interpreted]"
     try:
         out = w.call_func(f, [mset, cfg, spec, Obj("BATCH")])
+    except FragmentFault as e:
+        ctx.violated(rid, f, "_nominal_and_modifiers_from_spec", f"on a well-formed configuration the code indexes outside its own tensors: {e}")
     except (Undecided, KeyError, TypeError, ValueError, IndexError, AttributeError) as e:
         ctx.unrecognised(rid, f, "_nominal_and_modifiers_from_spec", f"not interpretable: {type(e).__name__}: {e}")
         return
@@ -767,6 +773,8 @@ def _apply_interpolating(ctx, rid, reg):
                         ctx.violated(rid, cl.methods["apply"], f"{cl.name} cell [{code}, batch_size={bs}]", f"the {'factor' if key == 'normsys' else 'shift'} of modifier {bad[0]} on sample {bad[1]}, batch row {bad[2]}, bin {bad[3]} is not the interpolation of that cell's own variations at the modifier's own parameter (neutral element {neutral} where the sample does not declare it)", expected=bad[5], found=bad[4])
                     else:
                         ctx.holds(rid, site, f"2 x 2 x {rows} x 4 cells: scalar reference of the cell's own data at the modifier's own parameter, {neutral} elsewhere")
+                except FragmentFault as e:
+                    ctx.violated(rid, cl, f"{cl.name} end to end [{code}, batch_size={bs}]", f"on a well-formed configuration the code indexes outside its own tensors: {e}")
                 except (Undecided, KeyError, TypeError, ValueError, IndexError, AttributeError) as e:
                     ctx.unrecognised(rid, cl, f"{cl.name} end to end [{code}, batch_size={bs}]", f"not interpretable: {type(e).__name__}: {e}")
 
@@ -832,6 +840,8 @@ def _rate_end_to_end(ctx, rid):
                 ctx.holds(rid, f"{PDF}::_MainModel.expected_data [{lab}]", f"shape {listnp._shape(out)}; rate formula cell by cell")
             else:
                 ctx.violated(rid, mm.methods["expected_data"], f"expected rates [{lab}]", "the expected rates are not sum over samples of (product of all multiplicative cells) x (nominal + sum of all additive cells) with the requested clipping, bin by bin and row by row", expected=str(w_)[:600], found=str(g_)[:600])
+        except FragmentFault as e:
+            ctx.violated(rid, mm, f"_MainModel [{lab}]", f"on a well-formed configuration the code indexes outside its own tensors: {e}")
         except (Undecided, KeyError, TypeError, ValueError, IndexError, AttributeError) as e:
             ctx.unrecognised(rid, mm, f"_MainModel [{lab}]", f"not interpretable: {type(e).__name__}: {e}")
 
